@@ -72,3 +72,78 @@ Theorem C15_count_truncation_v0_refuted : forall s : st,
             sp_size p * sp_count p + sp_final1 p + sp_final2 p = 0.
 Proof. exact count_truncation_v0_refuted. Qed.
 Print Assumptions C15_count_truncation_v0_refuted.
+
+(* ---- the program against ANY scripted device ------------------------------------------------ *)
+(* [good c]: the request id is a u16 and the negotiated maximum command length is at least 24 (a
+   32-bit register then travels in one WriteMem command; below 24 the code legitimately splits it).
+   Nothing is assumed about the world: arbitrary memory, arbitrary per-transaction plans (send
+   errors, receive errors, pending / edited / raw acknowledges), handle opened or not, SIRM
+   address cached or not. *)
+
+(* Reading never writes: every read path used here leaves the device write log untouched and
+   the handle usable, whatever the device answers. *)
+Theorem C15_reads_do_not_write :
+  (forall a n, quiet (read_reg a n)) /\ quiet h_sirm /\ quiet stream_params /\
+  (forall al rl rp rt, quiet (compute_sizes al rl rp rt)).
+Proof. exact (conj read_reg_quiet (conj h_sirm_quiet (conj stream_params_quiet compute_sizes_quiet))). Qed.
+Print Assumptions C15_reads_do_not_write.
+
+(* A register write of at most 4 bytes reaches the device at most once, as exactly these bytes
+   at exactly this address, and exactly once when it returns Ok. *)
+Theorem C15_register_write_once : forall a d c w r c' w', 0 < zlen d <= 4 -> bytes_ok d -> good c ->
+  ctl_write a d (c, w) = (r, (c', w')) ->
+  good c' /\ exists l, w_writes w' = rev l ++ w_writes w /\
+                       ((l = [] /\ r <> Ok tt) \/ l = [(a mod 2 ^ 64, d)]).
+Proof.
+  intros a d c w r c' w' Hd Hb G H. destruct (emits_ctl_write a d Hd Hb c w r c' w' G H) as [G' [l [W P]]].
+  split; [exact G'|]. exists l. split; [exact W|]. destruct P as [[L N]|L]; [left|right; exact L].
+  split; [exact L|]. apply N.
+Qed.
+Print Assumptions C15_register_write_once.
+
+(* C15_order.  Whatever the device does, the device write log left by enable_streaming is the old
+   log plus the first n of the intended writes, in order:
+     [SI_CONTROL := 0 if the stream was found enabled; transfer size; transfer count; final1;
+      final2; maximum leader; maximum trailer; SI_CONTROL := 1]
+   and all of them when the result is Ok.  Hence the write that sets the enable bit is the last
+   one, no SIRM size register is written after it, every size register write comes after the
+   clearing write, and a run that stops early has not written the enable bit. *)
+Theorem C15_order : forall c w r c' w', good c -> ctl_enable_streaming (c, w) = (r, (c', w')) ->
+  good c' /\ exists sirm dis p n, (n <= length (intended dis p))%nat /\
+    w_writes w' = rev (firstn n (map (img sirm) (intended dis p))) ++ w_writes w /\
+    (r = Ok tt -> n = length (intended dis p)).
+Proof. exact enable_order. Qed.
+Print Assumptions C15_order.
+
+Theorem C15_order_ok : forall c w c' w', good c -> ctl_enable_streaming (c, w) = (Ok tt, (c', w')) ->
+  exists sirm dis p,
+    w_writes w' = img sirm (4, 1) :: rev (map (img sirm) (six p)) ++
+                  (if dis : bool then [img sirm (4, 0)] else []) ++ w_writes w.
+Proof. exact enable_order_ok. Qed.
+Print Assumptions C15_order_ok.
+
+(* ---- failure ------------------------------------------------------------------------------------ *)
+
+(* A failing step of a bindM chain ends the chain with that error and the state the step left. *)
+Theorem C15_failure_generic : forall A B (m : M A) (f : A -> M B) s e s',
+  m s = (Err e, s') -> bindM m f s = (Err e, s').
+Proof. exact @bind_err. Qed.
+Print Assumptions C15_failure_generic.
+
+(* enable_streaming is its read prefix followed by the seven register writes as a sequence. *)
+Theorem C15_enable_as_seq : forall s, ctl_enable_streaming s = enable_alt s.
+Proof. exact enable_as_seq. Qed.
+Print Assumptions C15_enable_as_seq.
+
+(* C15_failure.  In the write sequence: if the steps before step i = |pre| were acknowledged and
+   step i does not return Ok, the whole sequence returns that result with the state the failing
+   step left (steps > i are not performed), and the device log holds the i earlier writes plus
+   at most the failing one; for i < 6 the enable write (last element of plan_regs) is therefore
+   not in the log. *)
+Theorem C15_failure : forall sirm pre x post c w c1 w1 (r1 : outcome unit) c2 w2, good c ->
+  write_seq sirm pre (c, w) = (Ok tt, (c1, w1)) -> wstep1 sirm x (c1, w1) = (r1, (c2, w2)) -> r1 <> Ok tt ->
+  write_seq sirm (pre ++ x :: post) (c, w) = (r1, (c2, w2)) /\
+  exists n, (length pre <= n <= length pre + 1)%nat /\
+    w_writes w2 = rev (firstn n (map (img sirm) (pre ++ x :: post))) ++ w_writes w.
+Proof. exact write_seq_failure. Qed.
+Print Assumptions C15_failure.
